@@ -48,3 +48,16 @@ Theorem C20_catch_and_continue_quads :
     run (emitted_rows evs ++ fl_rows (st_flow s')) = Valid (flat_map event_of_quad (accepted stream_quad stmts (enroll s))).
 Proof. exact catch_and_continue_quads. Qed.
 Print Assumptions C20_catch_and_continue_quads.
+
+(* GraphStream: graph() calls with catch-and-continue.  The first rejected graph leaves its graph
+   start and the triples accepted before the rejection (already appended, as in the code) and closes
+   the stream; later calls are refused without a trace; what is written is valid and denotes exactly
+   the accepted statements. *)
+From PJ.Proofs Require Import EncGraphs EncPoisonGraphs.
+Theorem C20_catch_and_continue_graphs :
+  forall (o : soptions) (s : stream) (gs : list (term * list (list term))),
+    stream_new GraphStream Generic o = Ok s -> cfg_ok o (st_logical s) -> fl_rows (st_flow s) = [] ->
+    let '(s', evs) := drive_graphs gs (enroll s) in
+    run (emitted_rows evs ++ fl_rows (st_flow s')) = Valid (accepted_events gs (enroll s)).
+Proof. exact catch_and_continue_graphs. Qed.
+Print Assumptions C20_catch_and_continue_graphs.
